@@ -6,6 +6,7 @@ pub mod ctx;
 pub mod fmtutil;
 pub mod kinds;
 pub mod plan;
+pub mod probe;
 pub mod tl;
 
 /// capacities compiled per kind (indices into this list are what `Case::cap` selects)
